@@ -122,18 +122,25 @@ impl Scaled {
     }
 
     /// TeX.2021.105
-    pub fn nx_plus_y(self, mut n: i32, y: Scaled) -> Result<Scaled, OverflowError> {
-        let max_answer = Scaled::MAX_DIMEN;
+    pub fn nx_plus_y(self, n: i32, y: Scaled) -> Result<Scaled, OverflowError> {
+        // The calculation is performed with 64-bit integers so that negating
+        // the arguments and calculating the bounds cannot overflow.
+        let max_answer: i64 = Scaled::MAX_DIMEN.0.into();
         if n == 0 {
             return Ok(y);
         }
-        let mut x = self;
+        let mut n: i64 = n.into();
+        let mut x: i64 = self.0.into();
+        let y: i64 = y.0.into();
         if n < 0 {
             n = -n;
             x = -x;
         }
         if x <= (max_answer - y) / n && -x <= (max_answer + y) / n {
-            Ok(x * n + y)
+            let r: i32 = (x * n + y)
+                .try_into()
+                .expect("the bounds checks ensure the result fits in 32 bits");
+            Ok(Scaled(r))
         } else {
             Err(OverflowError {})
         }
